@@ -1,5 +1,6 @@
 import MdsVerif.Model.Queue
 import MdsVerif.Spec.Deque
+import MdsVerif.GenFact
 /-!
 # `queue.Queue` refines the list deque (helper lemmas for C07)
 
@@ -9,57 +10,45 @@ namespace MdsVerif.Proofs.Queue
 open MdsVerif.Model.Queue MdsVerif.Spec MdsVerif
 variable {α : Type} [Inhabited α]
 
-/-! ## the regenerated facts (`Gen.Queue`) in the form the proofs use -/
+/-! ## the regenerated facts (`Gen.Queue`) in the form the proofs use
+
+Proved extensionally (`gen_fact`, `GenFact.lean`): each lemma says what the fact must be as a function of its
+arguments (`n`, `cap`, `head` are the natural numbers of the model); `q.n == 0` and `q.n < 1`, `a || b` and
+`b || a`, `head + n` and `n + head` all satisfy it, a changed value does not. -/
 section facts
 open Gen.Queue
-theorem addHasRoom_iff (n c : Nat) : addHasRoom n c = true ↔ n < c := by
-  unfold addHasRoom; rw [decide_eq_true_iff]; omega
-theorem pushHasRoom_iff (n c : Nat) : pushHasRoom n c = true ↔ n < c := by
-  unfold pushHasRoom; rw [decide_eq_true_iff]; omega
-theorem addWraps_iff (p c : Int) : addWraps p c = true ↔ p ≥ c := by
-  unfold addWraps; rw [decide_eq_true_iff]
-theorem popLastWraps_iff (p c : Int) : popLastWraps p c = true ↔ p ≥ c := by
-  unfold popLastWraps; rw [decide_eq_true_iff]
-theorem pushWraps_iff (p : Int) : pushWraps p = true ↔ p < 0 := by
-  unfold pushWraps; rw [decide_eq_true_iff]
-theorem addRotates_iff (h : Nat) : addRotates h = true ↔ h > 0 := by
-  unfold addRotates; rw [decide_eq_true_iff]; omega
-theorem pushRotates_iff (h : Nat) : pushRotates h = true ↔ h > 0 := by
-  unfold pushRotates; rw [decide_eq_true_iff]; omega
-theorem popEmpty_iff (n : Nat) : popEmpty n = true ↔ n = 0 := by
-  unfold popEmpty; rw [decide_eq_true_iff]; omega
-theorem popResets_iff (n : Nat) : popResets n = true ↔ n = 0 := by
-  unfold popResets; rw [decide_eq_true_iff]; omega
-theorem popLastEmpty_iff (n : Nat) : popLastEmpty n = true ↔ n = 0 := by
-  unfold popLastEmpty; rw [decide_eq_true_iff]; omega
-theorem popLastResets_iff (n : Nat) : popLastResets n = true ↔ n = 0 := by
-  unfold popLastResets; rw [decide_eq_true_iff]; omega
-theorem frontEmpty_iff (n : Nat) : frontEmpty n = true ↔ n = 0 := by
-  unfold frontEmpty; rw [decide_eq_true_iff]; omega
-theorem sliceEmpty_iff (n : Nat) : sliceEmpty n = true ↔ n = 0 := by
-  unfold sliceEmpty; rw [decide_eq_true_iff]; omega
-theorem isEmptyTest_eq (n : Nat) : isEmptyTest n = (n == 0) := by
-  unfold isEmptyTest; by_cases h : n = 0 <;> simp [h]
-theorem peekNeg_iff (k : Int) : peekNeg k = true ↔ k < 0 := by
-  unfold peekNeg; rw [decide_eq_true_iff]
-theorem peekOut_iff (k n : Int) : peekOut k n = true ↔ (k < 0 ∨ k ≥ n) := by
-  unfold peekOut; rw [Bool.or_eq_true, decide_eq_true_iff, decide_eq_true_iff]
-theorem addPos_eq (h n : Int) : addPos h n = h + n := rfl
-theorem addWrapped_eq (p c : Int) : addWrapped p c = p - c := rfl
-theorem addRotateBy_eq (h : Int) : addRotateBy h = -h := rfl
-theorem pushPos_eq (h : Int) : pushPos h = h - 1 := rfl
-theorem pushWrapped_eq (c : Int) : pushWrapped c = c - 1 := rfl
-theorem pushRotateBy_eq (h : Int) : pushRotateBy h = -h := rfl
-theorem pushGrowHead_eq (c : Int) : pushGrowHead c = c - 1 := rfl
-theorem popResetHead_eq : popResetHead = 0 := rfl
-theorem popHead_eq (h c : Nat) : popHead h c = (h + 1) % c := rfl
-theorem popLastPos_eq (h n : Int) : popLastPos h n = h + n - 1 := rfl
-theorem popLastWrapped_eq (p c : Int) : popLastWrapped p c = p - c := rfl
-theorem popLastResetHead_eq : popLastResetHead = 0 := rfl
-theorem peekNorm_eq (k n : Int) : peekNorm k n = k + n := rfl
-theorem peekIdx_eq (h k c : Nat) : peekIdx h k c = (h + k) % c := rfl
-theorem eachStep_eq (cur c : Nat) : eachStep cur c = (cur + 1) % c := rfl
-theorem sliceStep_eq (cur c : Nat) : sliceStep cur c = (cur + 1) % c := rfl
+theorem addHasRoom_iff (n c : Nat) : addHasRoom n c = true ↔ n < c := by gen_fact addHasRoom
+theorem pushHasRoom_iff (n c : Nat) : pushHasRoom n c = true ↔ n < c := by gen_fact pushHasRoom
+theorem addWraps_iff (p c : Int) : addWraps p c = true ↔ p ≥ c := by gen_fact addWraps
+theorem popLastWraps_iff (p c : Int) : popLastWraps p c = true ↔ p ≥ c := by gen_fact popLastWraps
+theorem pushWraps_iff (p : Int) : pushWraps p = true ↔ p < 0 := by gen_fact pushWraps
+theorem addRotates_iff (h : Nat) : addRotates h = true ↔ h > 0 := by gen_fact addRotates
+theorem pushRotates_iff (h : Nat) : pushRotates h = true ↔ h > 0 := by gen_fact pushRotates
+theorem popEmpty_iff (n : Nat) : popEmpty n = true ↔ n = 0 := by gen_fact popEmpty
+theorem popResets_iff (n : Nat) : popResets n = true ↔ n = 0 := by gen_fact popResets
+theorem popLastEmpty_iff (n : Nat) : popLastEmpty n = true ↔ n = 0 := by gen_fact popLastEmpty
+theorem popLastResets_iff (n : Nat) : popLastResets n = true ↔ n = 0 := by gen_fact popLastResets
+theorem frontEmpty_iff (n : Nat) : frontEmpty n = true ↔ n = 0 := by gen_fact frontEmpty
+theorem sliceEmpty_iff (n : Nat) : sliceEmpty n = true ↔ n = 0 := by gen_fact sliceEmpty
+theorem isEmptyTest_eq (n : Nat) : isEmptyTest n = (n == 0) := by gen_fact isEmptyTest
+theorem peekNeg_iff (k : Int) : peekNeg k = true ↔ k < 0 := by gen_fact peekNeg
+theorem peekOut_iff (k n : Int) : peekOut k n = true ↔ (k < 0 ∨ k ≥ n) := by gen_fact peekOut
+theorem addPos_eq (h n : Int) : addPos h n = h + n := by gen_fact addPos
+theorem addWrapped_eq (p c : Int) : addWrapped p c = p - c := by gen_fact addWrapped
+theorem addRotateBy_eq (h : Int) : addRotateBy h = -h := by gen_fact addRotateBy
+theorem pushPos_eq (h : Int) : pushPos h = h - 1 := by gen_fact pushPos
+theorem pushWrapped_eq (c : Int) : pushWrapped c = c - 1 := by gen_fact pushWrapped
+theorem pushRotateBy_eq (h : Int) : pushRotateBy h = -h := by gen_fact pushRotateBy
+theorem pushGrowHead_eq (c : Int) : pushGrowHead c = c - 1 := by gen_fact pushGrowHead
+theorem popResetHead_eq : popResetHead = 0 := by gen_fact popResetHead
+theorem popHead_eq (h c : Nat) : popHead h c = (h + 1) % c := by gen_fact popHead
+theorem popLastPos_eq (h n : Int) : popLastPos h n = h + n - 1 := by gen_fact popLastPos
+theorem popLastWrapped_eq (p c : Int) : popLastWrapped p c = p - c := by gen_fact popLastWrapped
+theorem popLastResetHead_eq : popLastResetHead = 0 := by gen_fact popLastResetHead
+theorem peekNorm_eq (k n : Int) : peekNorm k n = k + n := by gen_fact peekNorm
+theorem peekIdx_eq (h k c : Nat) : peekIdx h k c = (h + k) % c := by gen_fact peekIdx
+theorem eachStep_eq (cur c : Nat) : eachStep cur c = (cur + 1) % c := by gen_fact eachStep
+theorem sliceStep_eq (cur c : Nat) : sliceStep cur c = (cur + 1) % c := by gen_fact sliceStep
 end facts
 
 theorem rotateBy_neg (l : List α) (h : Nat) (h0 : 0 < h) : rotateBy l (-(h : Int)) = rotl l h := by
